@@ -4,7 +4,6 @@ import (
 	"bytes"
 	"encoding/json"
 	"fmt"
-	"hash/crc32"
 	"io"
 	"math/rand"
 	"time"
@@ -343,25 +342,12 @@ func runWriter(c *rp.Ctx, i, v int, cs *writerCase) rp.Result {
 	return rp.Result{OK: true, Info: info, Nontriv: true}
 }
 
-// variant hashes the case in canonical form (vcheck re-serialises a case when it replays it alone).
-func variant(raw []byte) int {
-	var v interface{}
-	if err := json.Unmarshal(raw, &v); err != nil {
-		panic(err)
-	}
-	b, err := json.Marshal(v)
-	if err != nil {
-		panic(err)
-	}
-	return int(crc32.ChecksumIEEE(b) & 0x7fffffff)
-}
-
 func init() {
 	registry["wswriter"] = func(c *rp.Ctx, i int, raw json.RawMessage) rp.Result {
 		cs := writerCase{}
 		if err := json.Unmarshal(raw, &cs); err != nil {
 			panic(err)
 		}
-		return runWriter(c, i, variant(raw), &cs)
+		return runWriter(c, i, rp.ContentHash(raw), &cs)
 	}
 }
